@@ -371,6 +371,16 @@ func (t *Transformer) ReverseTranslate(v reflect.Value) (reflect.Value, error) {
 	// iterate through manglers in reverse order passing the value of the struct
 	// field paired with its reflect.StructField as a FieldValueTuple
 
+	// Sources are free to hand over a pointer to the (translated) struct
+	// rather than the struct itself, so dereference like compose does.
+	for v.Kind() == reflect.Ptr {
+		if v.IsNil() {
+			return reflect.Value{}, &ReverseTranslateError{
+				ErrString: fmt.Sprintf("nil %s passed to ReverseTranslate", v.Type())}
+		}
+		v = v.Elem()
+	}
+
 	layerMangledVal := unpackValueFields(v)
 	// we're iterating backwards through manglers
 	for manglerNum := len(t.manglers) - 1; manglerNum >= 0; manglerNum-- {
